@@ -1496,7 +1496,16 @@ def commit(
 
             unstaged_changes = list(
                 get_unstaged_changes(
-                    index, r.path, filter_callback, trust_ctime=trust_ctime
+                    index,
+                    r.path,
+                    filter_callback,
+                    trust_ctime=trust_ctime,
+                    honor_filemode=commit_config.get_boolean(
+                        b"core", b"filemode", os.name != "nt"
+                    ),
+                    honor_symlinks=commit_config.get_boolean(
+                        b"core", b"symlinks", True
+                    ),
                 )
             )
 
@@ -2004,9 +2013,18 @@ def add(
         trust_ctime = config.get_boolean(b"core", b"trustctime", True)
         precompose_unicode = config.get_boolean(b"core", b"precomposeunicode", False)
 
+        honor_filemode = config.get_boolean(b"core", b"filemode", os.name != "nt")
+        honor_symlinks = config.get_boolean(b"core", b"symlinks", True)
+
         all_unstaged_paths = list(
             get_unstaged_changes(
-                index, r.path, filter_callback, preload_index, trust_ctime
+                index,
+                r.path,
+                filter_callback,
+                preload_index,
+                trust_ctime,
+                honor_filemode=honor_filemode,
+                honor_symlinks=honor_symlinks,
             )
         )
 
@@ -3926,6 +3944,8 @@ def status(
         except KeyError:
             max_stat = None
         precompose_unicode = config.get_boolean(b"core", b"precomposeunicode", False)
+        honor_filemode = config.get_boolean(b"core", b"filemode", os.name != "nt")
+        honor_symlinks = config.get_boolean(b"core", b"symlinks", True)
 
         unstaged_changes_tree = list(
             get_unstaged_changes(
@@ -3935,6 +3955,8 @@ def status(
                 preload_index,
                 trust_ctime,
                 max_stat,
+                honor_filemode=honor_filemode,
+                honor_symlinks=honor_symlinks,
             )
         )
 
